@@ -389,7 +389,28 @@ func runLBHealth(x *X) {
 	}
 
 	for i := 0; i < nSteps && !x.dead; i++ {
-		switch c.Pick([]int{8, 4, 3, 4, 2, 2, 2, 2, 2, 1, 1}, "step") {
+		switch c.Pick([]int{8, 4, 3, 4, 2, 2, 2, 2, 2, 1, 1, 2}, "step") {
+		case 11: // biased pattern: requests arrive at the very instant of a probe round in which a
+			// backend fails its probe: picks overlap the probe-caused ejection
+			if !active {
+				continue
+			}
+			b := net.order[c.Intn(len(net.order), "backend")]
+			pm := []string{"status", "conn"}[c.Intn(2, "probemode")]
+			net.mu.Lock()
+			b.probeMode = pm
+			net.mu.Unlock()
+			x.Fault("probe-" + pm)
+			now := x.Now()
+			d := (now/I+1)*I - now
+			k := 3 + c.Intn(4, "burst")
+			steps = append(steps, fmt.Sprintf("requests-at-failing-probe-round(%s,%s,%d,in %v)", b.name, pm, k, d))
+			var ts []*simrt.Task
+			for j := 0; j < k; j++ {
+				cl := manyClients[c.Intn(len(manyClients), "client")]
+				ts = append(ts, s.Spawn("at-tick", func() { TaskSleep(d); h.do(reqSpec{client: cl, path: "/at-tick"}) }))
+			}
+			x.WaitFor(onErr, ts...)
 		case 10: // the operator switches the strategy: health state and its reporting carry over
 			ns := strategies[c.Intn(5, "new-strategy")]
 			x.Do("set-strategy", func() {
